@@ -56,6 +56,50 @@ theorem retryAE_found_nil {P} (O : Oracles P) (prov : Option EventProvider) (ae 
   unfold retryAE
   simp only [h]
 
+theorem ensureKey_lookup (ae : Bytes) (m : IdMap) : ∃ v, (ensureKey ae m).lookup ae = some v := by
+  unfold ensureKey
+  cases h : m.lookup ae with
+  | none => exact ⟨none, lookup_cons_self ae none m⟩
+  | some v => exact ⟨v, h⟩
+
+/-- once the requested ID is bound the retry loop leaves at once -/
+theorem retryAE_bound_terminates {P} (O : Oracles P) (prov : Option EventProvider) (ae : Bytes) (n : Nat) (m : IdMap) (acc : P) (log : Log)
+    (v : Option Event) (h : m.lookup ae = some v) :
+    ∀ m' log', retryAE O prov ae (n + 1) m acc log ≠ .outOfFuel m' log' := by
+  intro m' log'
+  cases v with
+  | none => rw [retryAE_found_nil O prov ae n m acc log h]; intro h'; cases h'
+  | some a =>
+    rw [retryAE_found_some O prov ae n m acc log a h]
+    split <;> (intro h'; cases h')
+
+/-- The `goto retryEvent` loop terminates for EVERY provider: it jumps back at most once (fuel 2 suffices). -/
+theorem retryAE_terminates {P} (O : Oracles P) (prov : Option EventProvider) (ae : Bytes) (n : Nat) (m : IdMap) (acc : P) (log : Log) :
+    ∀ m' log', retryAE O prov ae (n + 2) m acc log ≠ .outOfFuel m' log' := by
+  intro m' log'
+  cases hl : m.lookup ae with
+  | some v => exact retryAE_bound_terminates O prov ae (n + 1) m acc log v hl m' log'
+  | none =>
+    unfold retryAE
+    simp only [hl]
+    cases prov with
+    | none => intro h; cases h
+    | some p =>
+      simp only
+      cases hp : p [ae] with
+      | error =>
+        simp only
+        exact retryAE_bound_terminates O (some p) ae n _ acc _ none (lookup_cons_self ae none m) m' log'
+      | events es =>
+        cases es with
+        | nil =>
+          simp only
+          exact retryAE_bound_terminates O (some p) ae n _ acc _ none (lookup_cons_self ae none m) m' log'
+        | cons e es =>
+          simp only
+          obtain ⟨v, hv⟩ := ensureKey_lookup ae (addProvided O (e :: es) m acc).1
+          exact retryAE_bound_terminates O (some p) ae n _ _ _ v hv m' log'
+
 /-- Fuel 2 suffices when the provider answers with the requested event or nothing. -/
 theorem retryAE_eq_stepC {P} (O : Oracles P) (hidem : AddIdem O) (prov : Option EventProvider) (hprov : ProvOK prov)
     (ae : Bytes) (n : Nat) (m : IdMap) (acc : P) (log : Log) :
@@ -84,10 +128,10 @@ theorem retryAE_eq_stepC {P} (O : Oracles P) (hidem : AddIdem O) (prov : Option 
       · simp only [he, addProvided]
         subst hid
         cases hsk : e.stateKey.isSome
-        · simp only [Bool.false_eq_true, if_false]
+        · simp only [Bool.false_eq_true, if_false, ensureKey, lookup_cons_self]
           rw [retryAE_found_nil O (some p) e.eventID n _ _ _ (lookup_cons_self e.eventID none m)]
           simp [Spec.provided, he, hsk]
-        · simp only [if_true]
+        · simp only [if_true, ensureKey, lookup_cons_self]
           rw [retryAE_found_some O (some p) e.eventID n _ _ _ e (lookup_cons_self e.eventID (some e) m)]
           simp [Spec.provided, he, hsk, hidem acc e]
 
